@@ -59,6 +59,7 @@ pub struct World {
     pub qc: Arc<QueryHashCache>,
     pub ids: BTreeSet<u64>,
     pub metric: DistanceMetric,
+    pub ef_default: usize,
 }
 
 pub fn parse_metric(s: &str) -> Option<DistanceMetric> {
@@ -143,6 +144,7 @@ fn build(fs: &Fields) -> Option<World> {
         qc,
         ids: BTreeSet::new(),
         metric,
+        ef_default: 50,
     })
 }
 
@@ -505,6 +507,75 @@ pub fn step(w: &mut Option<World>, line: &str) -> (String, String) {
                 l.update_predictor(p);
             }
             (strip_op(line), "ok".into())
+        }
+        "knn" => {
+            // k-NN through the real engine; the annotated line carries what the two tiers return
+            // for this query right now (the merge model's inputs).  `ef` given => cache bypassed.
+            let (Some(q), Some(k)) = (vec_field(&fs, "q"), nat(&fs, "k")) else { return bad() };
+            let k = k as usize;
+            let ef = nat(&fs, "ef").map(|x| x as usize);
+            let scope = nat(&fs, "scope").unwrap_or(0);
+            let hot = w.engine.hot_tier();
+            let cold = w.engine.cold_tier();
+            let key = |d: f32| -> u64 {
+                // monotone key of a finite float; -0.0 and +0.0 coincide
+                let d = if d == 0.0 { 0.0f32 } else { d };
+                let b = d.to_bits();
+                if b & 0x8000_0000 != 0 { (!b) as u64 } else { (b | 0x8000_0000) as u64 }
+            };
+            let kk = k.saturating_mul(2);
+            let hot_raw = if kk > 0 { hot.knn_search(&q, kk) } else { vec![] };
+            let hot_ann: Vec<String> = hot_raw
+                .iter()
+                .map(|(id, d)| {
+                    let m = match (hot.peek_with_coherence(*id), cold.current_coherence_token(*id)) {
+                        (Some((emb, tok)), Some(ctok)) => {
+                            (tok == ctok && kyrodb_engine::coherence::embedding_matches_token(&emb, tok)) as u8
+                        }
+                        _ => 0,
+                    };
+                    format!("{}:{}:{}:{}", id, key(*d), d.to_bits(), m)
+                })
+                .collect();
+            let cold_raw = if !cold.is_empty() && k > 0 && k <= 10_000 {
+                cold.knn_search_with_ef(&q, kk, ef.or(Some(w.ef_default))).unwrap_or_default()
+            } else {
+                vec![]
+            };
+            let cold_ann: Vec<String> = cold_raw
+                .iter()
+                .map(|r| format!("{}:{}:{}", r.doc_id, key(r.distance), r.distance.to_bits()))
+                .collect();
+            let hot_ids: Vec<u64> = w.ids.iter().copied().filter(|&id| hot.exists(id)).collect();
+            let r = w.engine.knn_search_with_ef_detailed_scoped(&q, k, ef, scope);
+            let out = match r {
+                Ok((res, path)) => format!(
+                    "ok path={:?} res={}",
+                    path,
+                    if res.is_empty() {
+                        "-".to_string()
+                    } else {
+                        res.iter()
+                            .map(|r| format!("{}:{}:{}", r.doc_id, key(r.distance), r.distance.to_bits()))
+                            .collect::<Vec<_>>()
+                            .join(",")
+                    }
+                ),
+                Err(_) => "rejected".into(),
+            };
+            (
+                format!(
+                    "knn q={} k={} ef={} scope={} hot={} cold={} hotset={}",
+                    show_vec(&q),
+                    k,
+                    ef.map(|e| e.to_string()).unwrap_or_else(|| "-".into()),
+                    scope,
+                    if hot_ann.is_empty() { "-".to_string() } else { hot_ann.join(",") },
+                    if cold_ann.is_empty() { "-".to_string() } else { cold_ann.join(",") },
+                    show_nat_list(&hot_ids)
+                ),
+                out,
+            )
         }
         "sizes" => {
             let l1a_keys: Vec<u64> = w
